@@ -1110,9 +1110,11 @@ def enumerated(prop, tier, seed):
 
 def plan(prop, tier):
     if prop == 'C12':
-        return {'runs': 9000 if tier == 'quick' else 400000,
+        return {'runs': 9000 if tier == 'quick' else 250000,
+                'opt_runs': 1100 if tier == 'quick' else 15000,
                 'wall_cap': 900 if tier == 'quick' else 6 * 3600}
-    return {'runs': 6000 if tier == 'quick' else 300000,
+    return {'runs': 6000 if tier == 'quick' else 250000,
+            'opt_runs': 750 if tier == 'quick' else 15000,
             'wall_cap': 900 if tier == 'quick' else 6 * 3600}
 
 
